@@ -165,6 +165,8 @@ def run(ctx):
 
     skipped_modules_not_resolved(ctx, "R13-e")
     parse_errors_are_errors(ctx, "R13-f")
+    modules_come_from_the_parser(ctx, "R13-g")
+    registered_modules_come_from_their_file(ctx, "R13-h")
 
     D = r.rule("R13-d", "ParseSess::default_submod_path retries in the declaring file's own directory only for "
                         "ModError::FileNotFound with a relative owner, every other error is passed on unchanged; the module map "
@@ -329,3 +331,74 @@ def parse_errors_are_errors(ctx, rid):
                         "other files of the crate (decisions: %s)" % (short(ret)[:60], [(k[-30:], variant_name(v)) for k, v in path.decisions][-4:]),
                         ["%s:%d" % (f.file, f.line)])
     r.floor(rid, n, 2, "parse-error paths of find_external_module")
+
+
+def modules_come_from_the_parser(ctx, rid):
+    """R13-g: the items of an out-of-line module are what the parser found in its file"""
+    p, r = ctx.p, ctx.r
+    r.rule(rid, "Parser::parse_file_as_module: every returning path that answers Ok(..) has passed the parser invocation "
+                "(catch_unwind around parse_mod) — the resolver discovers the children of a module only in those items, so a "
+                "fabricated (empty) module silently removes every file below it from the run")
+    f = p.named("parse_file_as_module", within="parse::parser::Parser")
+    if f is None:
+        r.undecidable(rid, "Parser::parse_file_as_module not found")
+        return
+    def is_parse(c):
+        return c.name == "std::panic::catch_unwind" or c.name.endswith("::parse_mod") or c.name.endswith("new_parser_from_file")
+    try:
+        paths = explore(f, is_effect=is_parse, pure=lambda c: not is_parse(c), max_paths=20000, program=p)
+    except TooManyPaths as e:
+        r.undecidable(rid, str(e))
+        return
+    r.paths(rid, len(paths))
+    n = 0
+    for path in paths:
+        if path.end != "ret" or path.ret is None:
+            continue
+        ret = vkey(path.ret)
+        if not ret.startswith("Ok("):
+            continue
+        n += 1
+        ran = any(e.kind == "call" for e in path.effects)
+        r.instance(rid, "parse_file_as_module Ok path", "ok" if ran else "violation", "%s:%d" % (f.file, f.line))
+        if not ran:
+            r.violation(rid, "parse_file_as_module answers Ok without parsing the file",
+                        "a path returns %s without having run the parser (decisions: %s): the module's own `mod` declarations are "
+                        "never seen, so the files they name are not formatted" % (short(ret)[:60], [(k[-40:], variant_name(v)) for k, v in path.decisions][-3:]),
+                        ["%s:%d" % (f.file, f.line)])
+    r.floor(rid, n, 1, "Ok-returning paths of parse_file_as_module")
+
+
+def registered_modules_come_from_their_file(ctx, rid):
+    """R13-h / R05-i: what is registered under a path is what was parsed from that path"""
+    p, r = ctx.p, ctx.r
+    r.rule(rid, "modules::ModResolver::{find_external_module, find_mods_outside_of_ast}: every Module paired with a file path (the "
+                "pairs end up in file_map and are written back to that path) is built by Module::new from the result of "
+                "Parser::parse_file_as_module; the declaration `sub_mod` received from the parent file is never cloned into such a "
+                "pair — its text is the parent's")
+    n_new = 0
+    for name in ("find_external_module", "find_mods_outside_of_ast"):
+        f = p.named(name, within="modules::ModResolver")
+        if f is None:
+            r.undecidable(rid, "ModResolver::%s not found" % name)
+            continue
+        subs = [i for i in range(1, f.argc + 1) if "modules::Module" in f.locals[i]]
+        for c in f.calls():
+            if c.name.endswith("modules::Module::<'a>::new") or c.name.endswith("modules::Module::new"):
+                d = f.derived_from(c.args[2][1][0]) if len(c.args) > 2 and c.args[2][0] != "k" else {"calls": []}
+                from_parse = any(x.name.endswith("parse_file_as_module") for x in d["calls"])
+                n_new += 1
+                r.instance(rid, "%s: Module::new from the parsed file" % name, "ok" if from_parse else "violation", c.loc())
+                if not from_parse:
+                    r.violation(rid, "%s: Module::new not fed by parse_file_as_module" % name,
+                                "a Module registered under a path is built from something else than the items parsed from that path",
+                                [c.loc()])
+            if c.name.endswith("as std::clone::Clone>::clone") and "modules::Module" in c.name and c.args and c.args[0][0] != "k":
+                d = f.derived_from(c.args[0][1][0])
+                if any(s_ in d["locals"] or s_ in d["args"] for s_ in subs):
+                    r.instance(rid, "%s: clone of the declaration" % name, "violation", c.loc())
+                    r.violation(rid, "%s registers the parent's declaration under a file path" % name,
+                                "`sub_mod.clone()` (the `mod x;` item of the parent file) is paired with the path of a module file: "
+                                "when nothing else was registered for that path (the file is `#![rustfmt::skip]`, or could not be "
+                                "parsed) the parent's text is written to it", [c.loc()])
+    r.floor(rid, n_new, 3, "Module::new sites in the external-module finders")
